@@ -796,3 +796,63 @@ Proof.
 Qed.
 End ImageLevels.
 
+
+(* ==================== 8. torch_style for each rank ==================== *)
+Lemma torch_style_gray : forall A ts (m : list (list A)), torch_style_view ts (Gray m) = Gray m.
+Proof. reflexivity. Qed.
+Lemma torch_style_off : forall A (i : image A), torch_style_view false i = i.
+Proof. intros A [m|m]; reflexivity. Qed.
+Lemma torch_style_color : forall A H W C (m : list (list (list A))), cube H W C m -> (1 <= H)%nat -> (1 <= W)%nat ->
+  torch_style_view true (Color m) = Color (hwc_to_chw C m) /\ chw_to_hwc H W (hwc_to_chw C m) = m.
+Proof.
+  intros A H W C m Hc HH HW. split; [|apply hwc_chw_inverse; exact Hc].
+  simpl. f_equal. f_equal. destruct Hc as [Hl Hf]. unfold channel_count.
+  destruct m as [|r m]; [simpl in Hl; lia|]. inversion Hf as [|? ? [Hr Hp] _]; subst. simpl.
+  destruct r as [|p r]; [simpl in HW; lia|]. inversion Hp; subst. reflexivity.
+Qed.
+
+Lemma transpose_hd_length : forall A n (m : list (list A)), (1 <= n)%nat -> Forall (fun r => length r = n) m ->
+  length (hd [] (transpose n m)) = length m.
+Proof.
+  intros A n m Hn H. pose proof (transpose_rows A n m H) as Hr. pose proof (transpose_length A n m H) as Hl.
+  destruct (transpose n m) as [|c T]; [simpl in Hl; lia|]. inversion Hr; subst. assumption.
+Qed.
+
+(* shapes: a monochrome file keeps (H, W) whatever torch_style says; (H, W, C) becomes (C, H, W) *)
+Lemma torch_style_shape_gray : forall A ts (m : list (list A)), image_shape (torch_style_view ts (Gray m)) = image_shape (Gray m).
+Proof. reflexivity. Qed.
+Lemma torch_style_shape_color : forall A H W C (m : list (list (list A))), cube H W C m -> (1 <= H)%nat -> (1 <= W)%nat -> (1 <= C)%nat ->
+  image_shape (torch_style_view true (Color m)) = [C; H; W].
+Proof.
+  intros A H W C m Hc HH HW HC. destruct (torch_style_color A H W C m Hc HH HW) as [-> _].
+  destruct Hc as [Hl Hf]. unfold image_shape, hwc_to_chw.
+  assert (Hrows : Forall (fun mm : list (list A) => length mm = W) m) by (eapply Forall_impl; [|exact Hf]; simpl; tauto).
+  assert (Hpix : Forall (Forall (fun p : list A => length p = C)) m) by (eapply Forall_impl; [|exact Hf]; simpl; tauto).
+  assert (H1 : Forall (fun mm => length mm = C) (map (transpose C) m)).
+  { apply Forall_forall. intros mm Hm. apply in_map_iff in Hm. destruct Hm as [m0 [<- Hm]].
+    apply transpose_length. rewrite Forall_forall in Hpix. apply Hpix. exact Hm. }
+  rewrite transpose_length by exact H1.
+  rewrite transpose_hd_length by (try exact H1; lia). rewrite map_length, Hl.
+  (* width: every entry of the transposed cube is a row of the planes, of length W *)
+  assert (H2 : Forall (Forall (fun r : list A => length r = W)) (transpose C (map (transpose C) m))).
+  { apply transpose_entries. apply Forall_forall. intros mm Hm. apply in_map_iff in Hm. destruct Hm as [m0 [<- Hm]].
+    rewrite Forall_forall in Hrows, Hpix. rewrite <- (Hrows m0 Hm). apply transpose_rows. apply Hpix. exact Hm. }
+  assert (H3 : length (transpose C (map (transpose C) m)) = C) by (apply transpose_length; exact H1).
+  assert (H4 : length (hd [] (transpose C (map (transpose C) m))) = H) by (rewrite transpose_hd_length by (try exact H1; lia); rewrite map_length; exact Hl).
+  destruct (transpose C (map (transpose C) m)) as [|pl T]; [simpl in H3; lia|]. simpl in *.
+  destruct pl as [|r pl]; [simpl in H4; lia|]. inversion H2 as [|? ? Hpl _]; subst. inversion Hpl; subst. reflexivity.
+Qed.
+
+Section ImageFull.
+Variables (A B F : Type) (q : A -> B) (inj : B -> A) (imwrite : image B -> F) (imread : F -> option (image B)).
+Hypothesis codec : forall i, shape_ok i = true -> imread (imwrite i) = Some (canon i).
+(* save then load with any torch_style: the torch_style view of the (canonical) image saved *)
+Lemma image_rt_full : forall ts (i : image A), shape_ok i = true -> (forall a, in_image a i -> inj (q a) = a) ->
+  load_image_full inj imread ts (save_image_model A B F q imwrite i) = Some (torch_style_view ts (canon i)).
+Proof.
+  intros ts i Hs Hq. pose proof (image_rt A B F q inj imwrite imread codec i Hs Hq) as H.
+  unfold load_image_full, load_view. unfold load_image_model in H.
+  destruct (imread (save_image_model A B F q imwrite i)) as [j|]; [|discriminate].
+  simpl in *. injection H as H. rewrite H. reflexivity.
+Qed.
+End ImageFull.
